@@ -256,6 +256,8 @@ def jobs(tier):
                                    bound='table-exhaustive', budget=900 if q else 3000, weight=100))
     for ci in range(len(USER_CASES)):
         for rev in ((False,) if q else (False, True)):
+            if rev and USER_CASES[ci][0].startswith('baz'):
+                continue      # attribute order under reverse mode is C03's subject: these cases would be vacuous
             out.append(Job('C14-c/user/%s/rev=%d' % (USER_CASES[ci][0], rev), 'vf.props.c14:mk_user', dict(ci=ci, reverse=rev),
                            shape='H', bound='3 user snippets', budget=600, weight=20))
     for probe in ('k1', 'k1>k2', 'k3*2+k1'):
